@@ -175,12 +175,36 @@ class Session:
             st.notes.append('undecided%s: %s' % (' (core)' if core else '', label))
         return res, model
 
-    def optimum(self, cons, objective, minimize=True, timeout_ms=None, label=''):
-        """Exact optimum of a linear objective over LRA/LIRA constraints with z3 Optimize.
+    def optimum(self, cons, objective, minimize=True, timeout_ms=None, label='', ints=None):
+        """Exact optimum of a linear objective over LRA constraints with z3 Optimize.
+
+        With integer variables (`ints`) z3's optimiser is not reliable on mixed problems (observed:
+        "-4 - epsilon" for a MILP whose optimum is -5), so the optimum is computed by solver-guided
+        enumeration: ask a plain Solver for a feasible point strictly better than the incumbent, fix its
+        integer part, optimise the continuous part exactly (pure LRA), repeat until unsat.
 
         Returns ('optimal', Fraction) | ('infeasible', None) | ('unbounded', None) | ('unknown', None)
         """
         z3 = z3mod()
+        if ints:
+            if not minimize:
+                raise HarnessError('mixed optimum: minimise only')
+            best = None
+            for it in range(400):
+                extra = [] if best is None else [objective < z3.RealVal(str(best))]
+                r, m = self.solve(list(cons) + extra, timeout_ms, label=label + '/improve')
+                if r == 'unsat':
+                    return ('optimal', best) if best is not None else ('infeasible', None)
+                if r != 'sat':
+                    return 'unknown', None
+                fix = [iv == m.eval(iv, model_completion=True) for iv in ints]
+                st, v = self.optimum(list(cons) + fix, objective, True, timeout_ms, label + '/cont')
+                if st == 'unbounded':
+                    return 'unbounded', None
+                if st != 'optimal':
+                    return 'unknown', None
+                best = v
+            return 'unknown', None
         o = z3.Optimize()
         o.set('timeout', int(timeout_ms or self.timeout_ms))
         for c in cons:
